@@ -115,7 +115,10 @@ NQGet ==
 BIns ==
     LET want == InsertOutcome(store, pool, "b", R.p)
         got == Stat(R.ins, R.upd) IN
-    IF R.err # 0 THEN Bad("bins:error,want=" \o want)
+    IF R.err # 0 THEN
+        (IF \E e \in store : FullIDCollision(pool[e.p], pool[R.p])
+           THEN Bad("bins:error,full-id-equals-that-of-another-stored-segment")
+           ELSE Bad("bins:error,want=" \o want))
     ELSE IF got # want \/ R.flt # 0 THEN Bad("bins:stats=" \o got \o ",want=" \o want)
     ELSE /\ store' = BInsert(store, pool, R.p, R.inIf, Range(R.usage))
          /\ UNCHANGED <<nq, rl, failed>>
